@@ -1,6 +1,6 @@
 ------------------------------ MODULE DltCodes ------------------------------
 (* HTYP, MSIN and type-info codes of the DLT layout (AUTOSAR PRS DLT).       *)
-EXTENDS Naturals, Sequences, Bytes
+EXTENDS Naturals, Sequences, FiniteSets, Bytes
 \* ---- HTYP: bit0 UEH, bit1 MSBF, bit2 WEID, bit3 WSID, bit4 WTMS, bits5-7 VERS
 HtypDec(b) == [ueh |-> Bit(b,0) = 1, be |-> Bit(b,1) = 1, weid |-> Bit(b,2) = 1,
                wsid |-> Bit(b,3) = 1, wtms |-> Bit(b,4) = 1, ver |-> b \div 32]
@@ -49,4 +49,15 @@ TiEnc(d) ==
               [] j = 2 -> (d.cod \div 2) % 4
               [] j = 3 -> 0
   IN <<byteOf(3), byteOf(2), byteOf(1), byteOf(0)>>
+\* ---- the declarative acceptance rule and the bits the format leaves unused per kind (C14)
+KindBitSet(w) == {k \in 4..10 : TiBit(w, k) = 1}
+Accepts(w) ==      \* "names one supported kind with a supported width"
+  /\ Cardinality(KindBitSet(w)) = 1 /\ TiBit(w, 8) = 0                          \* exactly one of BOOL SINT UINT FLOA STRG RAWD; no ARAY
+  /\ (TiBit(w, 5) = 1 \/ TiBit(w, 6) = 1) => (IF TiBit(w, 12) = 1 THEN Tyle(w) \in {3, 4} ELSE Tyle(w) \in 1..5)
+  /\ TiBit(w, 7) = 1 => Tyle(w) \in {3, 4}
+\* bits that carry no information for a kind: decode ignores them, encode writes them as zero
+UnusedBits(kind) ==
+  CASE kind \in {"bool", "str", "raw"} -> (0..3) \cup {12, 14} \cup (18..31)      \* TYLE, FIXP, STRU, reserved
+    [] kind = "float"                 -> {12, 14} \cup (18..31)                  \* FIXP, STRU, reserved
+    [] OTHER                          -> {14} \cup (18..31)                      \* STRU, reserved
 =============================================================================
